@@ -364,6 +364,24 @@ type order struct {
 // slice (what a JSON array binds to)
 type box struct{ V interface{} }
 
+// cyc: values that point back at themselves (a tree node that is its own descendant, a
+// context with a child context, the descriptor graph behind a protobuf message): the walk
+// over collection elements and interface values must come to an end
+type cyc struct {
+	V    int `vd:"$>=0"`
+	Next interface{}
+	Kids []*cyc
+	ByK  map[string]*cyc
+}
+
+// cycLate: the same, with the field that carries the expression declared after the
+// collections that lead back to the type (declaration order must not decide what is validated)
+type cycLate struct {
+	Kids []*cycLate
+	ByK  map[string]*cycLate
+	V    int `vd:"$>=0"`
+}
+
 // tagQuote writes the expression the way it stands between the double quotes of a struct
 // tag (a Go string literal: backslashes doubled)
 func tagQuote(expr string) string {
@@ -510,6 +528,21 @@ func validateWrapped(expr string, x *vals, asMap bool) (bool, interface{}, strin
 	return err == nil, pv, st
 }
 
+// validateIface: the value sits behind an interface-typed field of the bound struct.
+func validateIface(expr string, x *vals) (bool, interface{}, string) {
+	t := buildType(expr)
+	v := reflect.New(t)
+	setVals(v, x)
+	ot := reflect.StructOf([]reflect.StructField{{Name: "Data", Type: reflect.TypeOf((*interface{})(nil)).Elem(), Tag: `json:"data"`}})
+	outer := reflect.New(ot)
+	outer.Elem().Field(0).Set(v)
+	req := &protocol.Request{}
+	req.SetRequestURI("http://h/p")
+	var err error
+	pv, st := mon.Guard(func() { err = binding.BindAndValidate(req, outer.Interface(), nil) })
+	return err == nil, pv, st
+}
+
 func judgeTree(w *mon.W, c *mon.Case, ast *node, x *vals, r *mon.Rand) bool {
 	expr := ast.str(r, 0, false)
 	st := &evalState{}
@@ -531,6 +564,10 @@ func judgeTree(w *mon.W, c *mon.Case, ast *node, x *vals, r *mon.Rand) bool {
 	case 1:
 		route = " (as the value of a map field, through BindAndValidate)"
 		got, pv, stack = validateWrapped(expr, x, true)
+		w.Count("validations_through_bindandvalidate", 1)
+	case 2:
+		route = " (as the value of an interface-typed field, through BindAndValidate)"
+		got, pv, stack = validateIface(expr, x)
 		w.Count("validations_through_bindandvalidate", 1)
 	default:
 		got, pv, stack = validate(expr, x)
@@ -636,6 +673,7 @@ func work(w *mon.W) {
 		judgeTree(w, c, ast, genVals(c.R), c.R)
 	})
 	// hostile: loosely typed expressions, no-panic clause only
+	cyclicFamily(w)
 	w.Cases("hostile", uint64(w.Pick(60000, 1000000)), func(c *mon.Case) {
 		expr := hostileBool(c.R, 3)
 		x := genVals(c.R)
@@ -729,6 +767,85 @@ func work(w *mon.W) {
 					return
 				}
 			}
+		}
+	})
+}
+
+// cyclicFamily: validation of a cyclic value graph terminates, and accepts exactly when
+// every node's expression holds.
+func cyclicFamily(w *mon.W) {
+	w.Cases("cyclic", uint64(w.Pick(24, 600)), func(c *mon.Case) {
+		r := c.R
+		n := 1 + r.Intn(4)
+		nodes := make([]*cyc, n)
+		for i := range nodes {
+			nodes[i] = &cyc{V: r.Intn(5)}
+		}
+		bad := r.Chance(3)
+		if bad {
+			nodes[r.Intn(n)].V = -1
+		}
+		var shape []string
+		for i, nd := range nodes {
+			to := nodes[r.Intn(n)] // (possibly itself)
+			nxt := nodes[(i+1)%n]
+			switch r.Intn(3) {
+			case 0:
+				nd.Next = nxt
+				shape = append(shape, "iface")
+			case 1:
+				nd.Kids = []*cyc{nxt, to}
+				shape = append(shape, "slice")
+			default:
+				nd.ByK = map[string]*cyc{"k": nxt, "l": to}
+				shape = append(shape, "map")
+			}
+		}
+		c.Detail = func() interface{} {
+			return map[string]interface{}{"family": "cyclic", "nodes": n, "links": shape, "one_node_negative": bad}
+		}
+		var err error
+		pv, stack := mon.Guard(func() { err = binding.Validate(nodes[0]) })
+		w.Count("validations", 1)
+		w.Count("cyclic_validations", 1)
+		if pv != nil {
+			c.Violate(mon.PanicKey(stack), "Validate panics on a cyclic value (%d nodes linked through %v): %v", n, shape, pv)
+			return
+		}
+		if (err == nil) == bad {
+			c.Violate("accept-reject", "cyclic value of %d nodes linked through %v, one node with V=-1: %v; Validate returned %v", n, shape, bad, err)
+			return
+		}
+		w.Shape(mon.Hash64("cyclic", n, fmt.Sprint(shape), bad))
+		// a tree (no cycle) of the type whose tagged field is declared last: a node at
+		// depth 1..3 with V=-1 is rejected like one at the root
+		depth := 1 + r.Intn(3)
+		root := &cycLate{V: 1}
+		cur := root
+		for d := 0; d < depth; d++ {
+			nx := &cycLate{V: 1}
+			if r.Bool() {
+				cur.Kids = []*cycLate{{V: 2}, nx}
+			} else {
+				cur.ByK = map[string]*cycLate{"k": nx}
+			}
+			cur = nx
+		}
+		badLate := r.Bool()
+		if badLate {
+			cur.V = -1
+		}
+		pv, stack = mon.Guard(func() { err = binding.Validate(root) })
+		w.Count("validations", 1)
+		if pv != nil {
+			c.Violate(mon.PanicKey(stack), "Validate panics on a tree of cycLate nodes: %v", pv)
+			return
+		}
+		if (err == nil) == badLate {
+			c.Detail = func() interface{} {
+				return map[string]interface{}{"family": "cyclic", "type": "struct{ Kids []*T; ByK map[string]*T; V int `vd:\"$>=0\"` }", "depth_of_the_negative_node": depth}
+			}
+			c.Violate("accept-reject", "type with the tagged field declared after the recursive collections, node at depth %d with V=-1: %v; Validate returned %v", depth, badLate, err)
 		}
 	})
 }
